@@ -119,6 +119,28 @@ def run_impl(case):
             if key in results and not same(results[key], v):
                 prob.append(("repeat", f"{key}: repeated call returned a different result"))
             results[key] = v
+    # a result belongs to the caller: later calls with OTHER inputs of the same sizes leave the arrays returned earlier alone
+    snaps = {k: np.array(v, copy=True) for k, v in results.items() if isinstance(v, np.ndarray) and v.size}
+    if snaps:
+        T_o = T + 0.37
+        for kind, name in calls:
+            try:
+                if kind == "rate":
+                    getattr(s, name)(T_o)
+                elif kind == "thr":
+                    getattr(s, "threshold_at_" + name)(np.clip(R * 0.5 + 0.21, 0, 1))
+                elif kind == "cm":
+                    s.cm(T_o)
+                else:
+                    labels_o = np.array([0] * len(pos_in) + [1] * len(neg_in)).reshape(case["pshape"])
+                    sc_o = (np.concatenate([pos_in, neg_in]).astype(float) * 0.5 - 0.3).reshape(case["pshape"])
+                    pointwise_cm(labels_o, sc_o, T_o, score_class=case["sc"], equal_class=case["ec"])
+            except ValueError:
+                pass
+        for k_, snap_ in snaps.items():
+            if not same(results[k_], snap_):
+                prob.append(("repeat", f"{k_}: the array returned earlier changed after a later call with other inputs of the same sizes"))
+                break
     # shapes, scalar type, elementwise equality with scalar calls
     shp = tuple(case["shape"])
     for name in RATES:
@@ -159,6 +181,17 @@ def run_impl(case):
                 continue   # empty class for that metric: both raise (checked elsewhere)
             if not same(a, b):
                 prob.append(("alias", f"threshold_at_{alias}(method={m}) differs from threshold_at_{name}(method={m})"))
+    # the alias names are accepted wherever a rate is named: auc() by alias = auc() by primary name
+    if len(pos_in) and len(neg_in):
+        for alias, name in ALIASES.items():
+            try:
+                ax = [s.auc(x_axis=alias), s.auc(x_axis=alias, lower=0.125, upper=0.625), s.auc(x_axis="fpr", y_axis=alias)]
+                bx = [s.auc(x_axis=name), s.auc(x_axis=name, lower=0.125, upper=0.625), s.auc(x_axis="fpr", y_axis=name)]
+            except (ValueError, AttributeError) as ex:
+                prob.append(("alias", f"auc with the alias {alias}: {type(ex).__name__}"))
+                continue
+            if not same(np.array(ax), np.array(bx)):
+                prob.append(("alias", f"auc(x_axis / y_axis = {alias!r}) = {ax} differs from auc with {name!r} = {bx}"))
     cmv = results["cm:cm"]
     if cmv.shape != shp + (2, 2):
         prob.append(("shape", f"cm: shape {cmv.shape}, expected {shp + (2, 2)}"))
